@@ -67,7 +67,9 @@ def friction_velocity(
     )
 
     # Estimate direction from tail
-    direction = (180.0 / np.pi * np.arctan2(b1, a1)) % 360
+    # (the second modulo maps the 360.0 that results from rounding a tiny negative
+    # angle back into [0, 360) )
+    direction = ((180.0 / np.pi * np.arctan2(b1, a1)) % 360) % 360
     coords = {x: spectrum.dataset[x].values for x in spectrum.dims_space_time}
     return xarray.Dataset(
         data_vars={
